@@ -47,6 +47,28 @@ func c08Rules(p *Prog) *RuleSet {
 				}
 				return isStartPhi(m, pd.X)
 			}},
+			// the same fact per value: `x == <start constant>` established for a
+			// uint8 x (carried through classification helpers by the
+			// parametric summaries)
+			AtomDef{Name: "start-value", EdgeDyn: func(m *Matcher, pd Pred, holds bool) []Atom {
+				if pd.Kind != "eq" || !holds {
+					return nil
+				}
+				starts := map[int64]bool{}
+				for _, n := range []string{"DIAppStartMsgType", "TO0HelloMsgType", "TO1HelloRVMsgType", "TO2HelloDeviceMsgType"} {
+					if c, ok := m.P.constOf("fdo/protocol", n); ok {
+						starts[c] = true
+					}
+				}
+				for _, pr := range [][2]ssa.Value{{pd.X, pd.Y}, {pd.Y, pd.X}} {
+					if c, ok := constInt(pr[1]); ok && starts[c] && pr[0].Type().Underlying().String() == "uint8" {
+						if _, isConst := pr[0].(*ssa.Const); !isConst {
+							return []Atom{Atom("v:start:" + canon(pr[0]))}
+						}
+					}
+				}
+				return nil
+			}},
 			AtomDef{Name: "invalidated", Doc: "the token was invalidated", Exec: func(m *Matcher, call ssa.CallInstruction) bool {
 				return invalidates(m.P, call)
 			}},
@@ -227,9 +249,26 @@ func checkC08(c *Ctx, p *Prog, r *Result) {
 		dumpFlow(f)
 		r.rule("C08.new-token-on-start-only", "TokenService.NewToken is called only for the four protocol start messages")
 		r.floor("C08.new-token-on-start-only", 1)
-		r.requireAtSites(f, "C08.new-token-on-start-only", f.CallSites(func(cal Callee, call ssa.CallInstruction) bool {
+		for _, call := range f.CallSites(func(cal Callee, call ssa.CallInstruction) bool {
 			return cal.Name == "fdo/protocol.TokenService.NewToken" && strings.HasPrefix(p.FuncName(call.Parent()), "fdo/http.")
-		}), []Atom{"is-start"})
+		}) {
+			st := f.StateAt(call)
+			okv := st.Has("is-start")
+			if !okv && !st.top {
+				for a := range st.m {
+					if strings.HasPrefix(a, "v:start:") {
+						okv = true
+					}
+				}
+			}
+			o := Obl{Rule: "C08.new-token-on-start-only", Construct: "C08.new-token-on-start-only | " + siteKey(p, call), Pos: p.instrPos(call), Config: p.Config.Name,
+				Required: []string{"is-start"}, Found: st.list(), OK: okv}
+			if !okv {
+				o.Missing = []string{"is-start"}
+				o.Detail = "NewToken is reachable without the message type having been found equal to one of the four start types (directly, through a boolean flag, or through a classification helper). " + r.explain(f, call.Parent(), call.Block(), []string{"is-start"})
+			}
+			r.add(o)
+		}
 
 		r.rule("C08.success-response-after-invalidation", "the 200 response is written only if (the response type is none of 13/23/33/71 or the token was invalidated) and (it is not 255 or the token was invalidated)")
 		r.floor("C08.success-response-after-invalidation", 1)
